@@ -154,8 +154,15 @@ func genC14Cases(c *orch.Ctx) []*c14Case {
 		}
 	}
 	// grammar 2: malformed annotations
+	mAnn, cAnn := annotationMatrix(c.Seed, !c.Quick())
 	for round := 0; round < scale; round++ {
-		for k, ann := range badAnnotations {
+		methodAnns := badAnnotations
+		ctlAnns := badControllerAnnotations
+		if round == 0 {
+			methodAnns = append(append([]string{}, badAnnotations...), mAnn...)
+			ctlAnns = append(append([]string{}, badControllerAnnotations...), cAnn...)
+		}
+		for k, ann := range methodAnns {
 			p := base()
 			cc := &p.Controllers[0]
 			m := synth.Method{Name: "AnnTarget", Verb: "GET", Route: "/anntarget", Params: []synth.Param{{GoName: "q", Type: synth.Prim("string"), In: "query"}, {GoName: "a", Type: synth.Prim("int"), In: "query"}}}
@@ -175,7 +182,7 @@ func genC14Cases(c *orch.Ctx) []*c14Case {
 			}
 			cases = append(cases, &c14Case{Grammar: "annotations", Label: fmt.Sprintf("method-ann-%d", k), Project: p, Argv: cmd})
 		}
-		for k, ann := range badControllerAnnotations {
+		for k, ann := range ctlAnns {
 			p := base()
 			p.Controllers[0].ExtraAnn = strings.Split(ann, "\n")
 			cases = append(cases, &c14Case{Grammar: "annotations", Label: fmt.Sprintf("controller-ann-%d", k), Project: p, Argv: c14Commands[(k%2)*3]})
